@@ -81,6 +81,10 @@ type zzC04Variant struct {
 	Names  int   `json:"names"`
 	Global int   `json:"global"` // 4 bits: filtering, safe search, safe browsing, parental
 	W      int   `json:"w"`
+
+	// Spelling probes (a few dedicated tour segments only).
+	MacColon8   bool `json:"maccolon8"`   // spell 8-byte macs with colons, as HardwareAddr.String does
+	NetHostBits bool `json:"nethostbits"` // spell prefixes with (varying) host bits set
 }
 
 var zzC04NamePools = [][]string{
@@ -159,7 +163,7 @@ func (c zzC04Conc) mac(n int) (m net.HardwareAddr) {
 // one), so that length is spelled with dashes.
 func (c zzC04Conc) macString(n int) (s string) {
 	s = c.mac(n).String()
-	if c.v.MacLen == 8 {
+	if c.v.MacLen == 8 && !c.v.MacColon8 {
 		s = strings.ReplaceAll(s, ":", "-")
 	}
 
@@ -248,7 +252,7 @@ func (a *zzC04Abs) idsOf(p *Persistent) (ids []zzC04ID, ok bool) {
 		add(id, f)
 	}
 	for _, n := range p.Subnets {
-		id, f := a.nets[n]
+		id, f := a.nets[n.Masked()]
 		add(id, f)
 	}
 	for _, m := range p.MACs {
@@ -528,10 +532,21 @@ func zzC04NewRunner(tb testing.TB, uni *zzC04Uni, v zzC04Variant, dir string, ri
 func (rn *zzC04Runner) build(nameIdx, mask, fl int) (p *Persistent, err error) {
 	name := rn.names[nameIdx-1]
 	var ids []string
-	for i := range rn.uni.IDs {
-		if mask&(1<<i) != 0 {
-			ids = append(ids, rn.idStr[i])
+	for i, id := range rn.uni.IDs {
+		if mask&(1<<i) == 0 {
+			continue
 		}
+		if id.K == "net" && rn.conc.v.NetHostBits {
+			// The same network, written with some host bits set.
+			p := rn.conc.prefix(id.X, id.Y)
+			b := p.Addr().AsSlice()
+			b[len(b)-1] |= byte(rn.rng.Intn(256)) & byte(0xff>>uint(id.Y))
+			a, _ := netip.AddrFromSlice(b)
+			ids = append(ids, netip.PrefixFrom(a, p.Bits()).String())
+
+			continue
+		}
+		ids = append(ids, rn.idStr[i])
 	}
 	rn.rng.Shuffle(len(ids), func(i, j int) { ids[i], ids[j] = ids[j], ids[i] })
 
@@ -944,7 +959,7 @@ func zzC04RunChunk(tb testing.TB, uni *zzC04Uni, states []*zzC04State, c *zzC04C
 	rn.jump(states[c.Start].K)
 	o := rn.observe()
 	if d := zzC04Compare(o, states[c.Start]); d != "" {
-		return 0, rn.nLook, mk(-1, c.Start, nil, "after setup: "+d, "", nil, o, states[c.Start])
+		return 0, rn.nLook, mk(-1, c.Start, nil, "after setup: "+d, fmt.Sprintf("adding the clients of state %v to an empty storage", states[c.Start].K), nil, o, states[c.Start])
 	}
 
 	cur := c.Start
